@@ -27,6 +27,14 @@ RULES = {
            'Non-trivial/distinct as C01',
 }
 
+ADDED = (' Added in later rounds: instance attributes re-tuned between calls (searchwindowsize, maxread, timeout, delayafterread), one '
+         'pattern list object reused and edited in place, strings compiled by pexpect itself (clause: searched exactly the patterns '
+         'asked for, with DOTALL and with IGNORECASE iff the instance says so), case-variant streams under ignorecase incl. letters '
+         'whose case folding is wider than str.lower() (long s, Kelvin sign, final sigma), unusual byte values (NUL, 0xff, bare CR), '
+         'EINTR on the n-th wait, processes with > 1024 descriptors (use_poll=True runs), kernel-truth decode clause in unicode mode.')
+for _k in RULES:
+    RULES[_k] += ADDED
+
 ASSUME = ['anchors and look-around assertions see exactly the searched text (the last W characters under a window) in model and oracle alike',
           'kernel stub rules (simpex/kernel.py) match Linux for what pexpect observes',
           'no wall-clock steps; complete writes on blocking descriptors']
